@@ -11,6 +11,9 @@ CHECKS = {
     'C05': dict(level='exploration', runs=_e1('C05', 'h_e1x'), percase=5, deadline=dict(quick=150, thorough=1500)),
     'C12': dict(level='exploration', runs=_e1('C12', 'h_e1x'), percase=5, deadline=dict(quick=150, thorough=1500)),
     'C13': dict(level='exploration', runs=_e1('C13', 'h_e1x'), percase=5, deadline=dict(quick=150, thorough=1500)),
+    'C06': dict(level='model_checking', runs=_e1('C06', 'h_e3'), percase=20, deadline=dict(quick=150, thorough=1500),
+                mc_cov=lambda cn: dict(states=cn.get('C06/ref:states', 0), transitions=cn.get('C06/ref:transitions', 0), traces_validated_against_impl=cn.get('C06/ref:transitions', 0),
+                                       explanation='states = canonical hashes of the real session objects summed over configurations; every transition is one real xgssvx call judged by the oracles, so every explored trace is executed on the implementation')),
     'C07': dict(level='fault_enumeration', runs=_e1('C07', 'h_e2'), percase=5, deadline=dict(quick=150, thorough=1500)),
     'C08': dict(level='fault_enumeration', runs=_e1('C08', 'h_e2'), percase=5, deadline=dict(quick=150, thorough=1500)),
 }
@@ -57,3 +60,7 @@ META.update({
                 text='Every workspace length of the sweep (each a distinct exhaustion point) at both alignments, every (Fact, Equil, fill) size query and every k-th failing growth request is executed on xgssvx/xgsisx: no crash/hang/abort, canaries and guard page intact, no free of a workspace pointer, allocator invariants hold, and the outcome is either info>n or factors bit-identical to library allocation; a size query changes nothing but info/mem_usage.',
                 note=_E2_NOTE + ' Known finding F5 (size query through the drivers pre-processes A/perm_c/etree first) is reported as KNOWN-FINDING; F14-F16, F18 were repaired by fix: commits.'),
 })
+
+META['C06'] = dict(engine='E3 history explorer', design_ref='5/C06', technique='explicit-state breadth-first search over operation histories of the real xgssvx session (state = canonical hash of the carried objects), to a fixpoint per configuration',
+    text='For every configuration (pattern, type, tuning, ordering, Equil, refinement, storage model, threshold) the reachable state graph over the 18-event alphabet {DOFACT, SamePattern, SamePattern_SameRowPerm} x {base values, tiny perturbation, unrelated values, reused pivot made exactly zero, rows rescaled} + FACTORED x {N,T,C} is explored to a fixpoint; every transition is a real driver call judged by the structure, LU-identity, multiplier-bound, scaling and solution oracles of C02/C03/C05 with respect to that call\'s matrix; FACTORED must leave the state hash unchanged; DOFACT(v) after any history must give bit-identical factors to DOFACT(v) from the initial state.',
+    note=_E1_NOTE + ' State canonicalisation: addresses and timings excluded, everything else that a later call can read is hashed, so merged states have the same futures. Known findings F10/F11 apply as in C05.')
